@@ -27,7 +27,7 @@ func init() {
 			{"C04/integer-classification", func(c *Ctx) { ruleIntegerClassification(c, "C04/integer-classification") }},
 		},
 		Explanation: "Decides the code-shape clauses of inference soundness: the kind dispatch handles exactly the documented kinds and sends the rest to the unsupported/ignored exit; `null` is added for pointers, slices and substituted schemas only by extending an existing type (never producing a list with only \"null\") and is never withheld for a particular type; the table of standard-library marshaler types maps each type to the JSON type it marshals to (frozen table; big.Int is a known finding); an embedded field's json tag is consulted before it is flattened (known finding); the bounds of sized integers equal the ranges of their kinds; a field is required exactly when it carries neither omitempty nor omitzero; the tag parser is a pure function of the field; integral floats are classified by an exact test. It does NOT decide agreement with encoding/json's dynamic field resolution (name conflicts between a field and a promoted field are not detectable by a shape rule) nor the validity of any concrete value.",
-		NotDecided: []string{"JSON-name conflicts between a field and a deeper promoted field (confirmed defect D9; no shape-independent static condition separates a correct implementation from this one)", "values of marshaler types", "the validity of any concrete encoded value"},
+		NotDecided:  []string{"JSON-name conflicts between a field and a deeper promoted field (confirmed defect D9; no shape-independent static condition separates a correct implementation from this one)", "values of marshaler types", "the validity of any concrete encoded value"},
 	})
 	register(&Property{
 		ID: "C09",
@@ -41,7 +41,7 @@ func init() {
 			{"C09/anon-tag", func(c *Ctx) { ruleAnonTag(c, "C09/anon-tag") }},
 		},
 		Explanation: "Decides that inferred schemas are tight in shape: every struct schema is closed (additionalProperties false is stored unconditionally on the struct path, also for structs without fields); required is appended exactly under the two negated option tests; the constants stored as minimum/maximum equal the range of each sized integer kind, are fresh per schema, unsigned kinds have minimum 0, integer kinds have type integer and floats number; fixed-size arrays get minItems = maxItems = their length; slices, arrays and maps get the recursive schema of their element type; and the evaluator applies minimum/maximum/multipleOf to every number regardless of the `type` keyword (so the bounds of nullable integers are enforced). It does NOT decide agreement with encoding/json's decoder.",
-		NotDecided: []string{"agreement with encoding/json's decoder (case-insensitive field matching, number syntax)", "D8/D9 (flattened tagged embedded structs, name conflicts), which break this property too"},
+		NotDecided:  []string{"agreement with encoding/json's decoder (case-insensitive field matching, number syntax)", "D8/D9 (flattened tagged embedded structs, name conflicts), which break this property too"},
 	})
 	register(&Property{
 		ID: "C16",
@@ -59,7 +59,7 @@ func init() {
 			{"C16/inferred-order-duplicate-free", func(c *Ctx) { ruleInferredOrderDedup(c, "C16/inferred-order-duplicate-free") }},
 		},
 		Explanation: "Decides isolation and determinism of inference structurally: every schema taken from the type table or from a TypeSchemas override (including the properties of an overridden embedded struct) passes through CloneSchemas before it enters the result, and no Schema value is copied shallowly; the table handed to the recursion is a per-call clone of the package table, and nothing reachable from For writes the package table, the options or anything not allocated by the call; the cycle mark is tested and set before recursing and removed by a deferred delete on every exit; every map iteration is order-insensitive; tag options are the exact comma-separated elements and the tag parser is a pure function of the field; required follows the two option tests; the promoted fields of an overridden embedded struct are skipped by comparing index prefixes; the inferred PropertyOrder is always de-duplicated. It does NOT decide agreement of names and order with encoding/json for every tag string.",
-		NotDecided: []string{"agreement of property names and order with encoding/json for every tag string and embedding (D8, D9)", "equality of repeated results as values"},
+		NotDecided:  []string{"agreement of property names and order with encoding/json for every tag string and embedding (D8, D9)", "equality of repeated results as values"},
 	})
 }
 
@@ -500,6 +500,40 @@ func ruleAnonTag(c *Ctx, rule string) {
 				consulted = true
 			}
 		}
+		// only an embedded STRUCT has fields to promote: an embedded named non-struct type is an ordinary
+		// field named after the type, so the decision to skip the embedded field must look at its kind
+		kindTested := false
+		core.EachInstr(m.fn, func(j ssa.Instruction) {
+			bo, ok := j.(*ssa.BinOp)
+			if !ok || (bo.Op != token.EQL && bo.Op != token.NEQ) || !region.Dominates(bo.Block()) {
+				return
+			}
+			for _, pair := range [][2]ssa.Value{{bo.X, bo.Y}, {bo.Y, bo.X}} {
+				kc, isCall := pair[0].(*ssa.Call)
+				k, isK := pair[1].(*ssa.Const)
+				if !isCall || !isK || !kc.Call.IsInvoke() || kc.Call.Method.Name() != "Kind" {
+					continue
+				}
+				if v, ok := constInt(k); !ok || v != int64(kStruct) {
+					continue
+				}
+				for _, src := range append(traceSources(kc.Call.Value), kc.Call.Value) {
+					if c.mentionsNamedField(src, "Type", 4) {
+						kindTested = true
+					}
+					if ec, ok := src.(*ssa.Call); ok && ec.Call.IsInvoke() && ec.Call.Method.Name() == "Elem" {
+						for _, s2 := range append(traceSources(ec.Call.Value), ec.Call.Value) {
+							if c.mentionsNamedField(s2, "Type", 4) {
+								kindTested = true
+							}
+						}
+					}
+				}
+			}
+		})
+		if strings.HasPrefix(rule, "C04/") {
+			c.R.Check(kindTested, rule, "forType:field.Anonymous:promotes-only-structs", c.pos(ifi), "an embedded field is skipped (its fields being promoted) only when its type is a struct", "an embedded field is skipped whatever its kind: struct{ MyString } (type MyString string) marshals as {\"MyString\":\"...\"} but the inferred schema has no such property and is closed, so the encoding is rejected")
+		}
 		if consulted {
 			// encoding/json promotes an embedded struct's fields unless the tag gives it a NAME: a tag with
 			// options only (`json:",omitempty"`) still promotes. The decision must look at the name, not at the tag's presence.
@@ -628,6 +662,7 @@ func ruleRequiredGuard(c *Ctx, rule string) {
 		n++
 		opts := map[string]bool{}
 		var extra []string
+		viaPointer := false
 		for _, g := range guardsOf(st) {
 			if lk, ok := g.Cond.(*ssa.Lookup); ok && !g.Pol {
 				if s, ok := constString(lk.Index); ok {
@@ -636,6 +671,10 @@ func ruleRequiredGuard(c *Ctx, rule string) {
 				}
 			}
 			if isRangeCond(g.Cond) || isErrNilTest(g.Cond) || c.isKindDispatch(g.Cond) {
+				continue
+			}
+			if c.dependsOnIndexPath(g.Cond, 5) {
+				viaPointer = true
 				continue
 			}
 			if !skippable(g, st) {
@@ -648,6 +687,10 @@ func ruleRequiredGuard(c *Ctx, rule string) {
 			extra = append(extra, c.pos(g.At))
 		}
 		c.R.Check(opts["omitempty"] && opts["omitzero"], rule, "required:option-tests", c.pos(st), "a field is required only if it has neither omitempty nor omitzero", fmt.Sprintf("the append to required is guarded by the negated option tests %v, expected both omitempty and omitzero: a field that encoding/json may omit would be required (valid encodings rejected), or an always-emitted field optional", sortedKeys(opts)))
+		if strings.HasPrefix(rule, "C04/") { // only C04 (the encoding of every value is accepted) needs this; a stricter schema does not break C09 or C16
+			c.R.Check(viaPointer, rule, "required:not-through-embedded-pointer", c.pos(st), "whether a promoted field is required depends on the embedding path (a field reached through an embedded pointer is absent when the pointer is nil)",
+				"a field promoted from an embedded pointer (struct{ *Inner }) is required like any other, but encoding/json omits it when the pointer is nil: the encoding of the zero value of such a type is rejected by the inferred schema")
+		}
 		c.R.Check(len(extra) == 0, rule, "required:no-other-condition", c.pos(st), "nothing else decides whether a field is required", fmt.Sprintf("whether a field becomes required additionally depends on other conditions (guards at %v)", extra))
 	}
 	c.R.Floor(rule, "appends to required", n, 1)
@@ -1343,6 +1386,46 @@ func (c *Ctx) dependsOnTag(v ssa.Value, depth int) bool {
 				return true
 			}
 		}
+	}
+	return false
+}
+
+// dependsOnIndexPath: the condition is computed from the index path of the struct field being
+// examined (reflect.StructField.Index), directly or through a package function applied to it.
+func (c *Ctx) dependsOnIndexPath(v ssa.Value, depth int) bool {
+	if v == nil || depth == 0 {
+		return false
+	}
+	if c.mentionsNamedField(v, "Index", 4) {
+		return true
+	}
+	switch x := v.(type) {
+	case *ssa.Call:
+		for _, a := range x.Call.Args {
+			if c.dependsOnIndexPath(a, depth-1) {
+				return true
+			}
+		}
+	case *ssa.BinOp:
+		return c.dependsOnIndexPath(x.X, depth-1) || c.dependsOnIndexPath(x.Y, depth-1)
+	case *ssa.UnOp:
+		if cell := resolveCell(x.X); cell != nil {
+			for _, sv := range cellStores(cell) {
+				if c.dependsOnIndexPath(sv, depth-1) {
+					return true
+				}
+			}
+			return false
+		}
+		return c.dependsOnIndexPath(x.X, depth-1)
+	case *ssa.Phi:
+		for _, e := range x.Edges {
+			if c.dependsOnIndexPath(e, depth-1) {
+				return true
+			}
+		}
+	case *ssa.Extract:
+		return c.dependsOnIndexPath(x.Tuple, depth-1)
 	}
 	return false
 }
